@@ -66,6 +66,14 @@ def gen(rng, n, tier):
             sl = [[a, b] for a, b in ((rng.randint(0, nb), rng.randint(0, nb + 1)) for _ in range(4)) if a <= b]
             yield [["bucket", "repr/" + cls], ["kind", "repr"], ["spec", spec], ["slice_args", sl], ["perturb", rng.choice([0, 0, 1, 2])]]
         elif r < 0.75:
+            if rng.random() < 0.06:
+                # the grid given by its start: FixedWidthBinning(bin_width=w, bin_count=k, min=m) with decimal widths and starts
+                # that are multiples of the width as written (1.7 with 0.1, 2.1 with 0.7 ...)
+                w = rng.choice([0.1, 0.2, 0.3, 0.7, 0.05, 0.6, 1e-3, 2.5, 1.0, 0.25])
+                mnv = fl(round(rng.randint(-60, 60) * w, 10)) if rng.random() < 0.8 else fl(rng.uniform(-5, 5))
+                yield [["bucket", "rule/fixed_min"], ["kind", "rule"], ["method", "fixed_min"], ["data", []], ["range", "none"], ["must_refuse", "F"],
+                       ["bin_width", fl(w)], ["bin_count", rng.randint(1, 12)], ["min", mnv], ["via", "factory"]]
+                continue
             meth = rng.choice(["numpy", "numpy", "fixed_width", "fixed_width", "integer", "pretty", "pretty", "quantile", "exponential", "static", "countname", "scott", "freedman", "blocks"])
             data = gen_data(rng, positive=meth == "exponential", n=(rng.choice([8, 20, 60]) if meth in ("scott", "freedman", "blocks") else None))
             if meth in ("pretty", "fixed_width") and rng.random() < 0.3:
@@ -258,6 +266,8 @@ def impl(case):
                     if d["shift_arg"] != "none": kw2["bin_shift"] = float(d["shift_arg"])
                     if d["align"] == "F": kw2["align"] = False
                     b = B.fixed_width_binning(data, **kw2) if via == "factory" else calculate_1d_bins(data, "fixed_width", **kw2)
+                elif meth == "fixed_min":
+                    b = B.FixedWidthBinning(bin_width=float(d["bin_width"]), bin_count=d["bin_count"], min=float(d["min"]))
                 elif meth == "integer":
                     kw2 = dict(kw)
                     if d["bin_width"] != 1: kw2["bin_width"] = int(d["bin_width"])
